@@ -487,6 +487,51 @@ A('''def argsOkSs (b : Bindings) : List Stmt → Bool
   | s :: ss => argsOkS b s && argsOkSs b ss
 end
 
+/-! ## nodes that `visit_arg` puts into the result WITHOUT a copy (labels, in traversal order) -/
+def notName (e : Expr) : Bool := !isName e
+
+mutual
+def sharedE (b : Bindings) : Expr → List Nat
+  | .noneMarker => []
+  | .name .. => []
+  | .keyword _ f_arg f_hasArg f_value =>
+      match (if f_hasArg then b.lookup f_arg else none) with
+      | some _ => []
+      | none => sharedE b f_value
+  | .arg _ f_name _ => match b.lookup f_name with
+      | some bd => labelsEs (bd.exprs.filter notName)
+      | none => []''')
+def shared_case(cname, fs):
+    rf = rec_fields(fs)
+    parts = [('sharedE' if kind(f) == 'E' else 'sharedSs' if kind(f) == 'Ss' else 'sharedEs') + ' b ' + vn(f) for f in rf]
+    body = ' ++ ('.join(parts) + ')' * (len(parts) - 1) if parts else '[]'
+    return '  | %s => %s' % (pat(cname, fs), body)
+for cname, fs in EXPR_ALL:
+    if cname in ('name', 'keyword', 'arg'):
+        continue
+    A(shared_case(cname, fs))
+A('''def sharedEs (b : Bindings) : List Expr → List Nat
+  | [] => []
+  | e :: es => sharedE b e ++ sharedEs b es
+end
+mutual
+def sharedS (b : Bindings) : Stmt → List Nat
+  | .expr _ f_value =>
+      match f_value with
+      | .name .. => []
+      | _ => sharedE b f_value''')
+for cname, fs in STMT:
+    if cname == 'expr':
+        continue
+    A(shared_case(cname, fs))
+A('''def sharedSs (b : Bindings) : List Stmt → List Nat
+  | [] => []
+  | s :: ss => sharedS b s ++ sharedSs b ss
+end
+
+/-- every node that is inserted without a copy is inserted at most once (and is one object, not two with one label) -/
+def sharedOk (b : Bindings) (t : List Stmt) : Bool := decide (sharedSs b t).Nodup
+
 end Malt.Conv.Template
 ''')
 open(__import__('os').path.join(__import__('os').path.dirname(__import__('os').path.abspath(__file__)), '..', '..', 'lean') + '/MaltModel/Conv/Template.lean', 'w').write('\n'.join(out))
